@@ -125,7 +125,7 @@ check("C05", "Lean 4 theorems over the pseudo-angle model (length independence, 
       "cos 2theta = k_f.k_i; the code's 2 sin(theta) cos(tau) - sin(alpha) IS n.k_f (sin beta); qaz = atan2(k_f.x, k_f.z) away from theta in {0,90}; and the function never raises "
       "(C11.virtualAngles_total). Model compared with get_virtual_angles on random/special positions with vectors of any length in either frame; the oracle recomputes all ten angles from "
       "first-principles vectors and requires invariance under every scaling.",
-      "Lean kernel; standard axioms; betain/betaout = asin(-s.k_i), asin(s.k_f) for any surface-vector length (Props/C05Geo.lean); PARTIAL: psi (eqs 25/28) equals its geometric definition on every sampled position but this is not proved; hand model tied by sampled correspondence.",
+      "Lean kernel; standard axioms; betain/betaout = asin(-s.k_i), asin(s.k_f) for any surface-vector length (Props/C05Geo.lean); psi (eqs 25/28) = atan2(-n.s, -n.e) with s the scattering-plane normal and e = s x q, exactly, whenever qaz and naz are defined and no 1e-7 threshold is hit (Props/C05Psi.lean: psi_geometric); PARTIAL: on the fallback branch (naz undefined) only the oracle; hand model tied by sampled correspondence.",
       "DESIGN.md §6 C05")
 
 check("C13", "Lean 4 theorems at specification level (forward model and filter invariant / equivariant) + metamorphic oracle on the implementation",
